@@ -104,6 +104,30 @@ def bytesLe : Bytes → Bytes → Bool
   | _ :: _, [] => false
   | a :: as, b :: bs => a < b || (a == b && bytesLe as bs)
 
+def getKeyStr (g : GetKey) : String := s!"{hexOf g.key}/{g.opq}/{if g.quiet then 1 else 0}"
+
+def cmdStr : Cmd → String
+  | .store k c =>
+    let kn := match k with | .set => "set" | .add => "add" | .replace => "replace" | .append => "append" | .prepend => "prepend"
+    s!"{kn}:{hexOf c.key}:{c.flags}:{c.exptime}:{hexOf c.data}:{c.opq}:{if c.quiet then 1 else 0}"
+  | .get g => s!"get:{",".intercalate (g.keys.map getKeyStr)}:{g.noopOpaque}:{if g.noopEnd then 1 else 0}"
+  | .getE g => s!"gete:{",".intercalate (g.keys.map getKeyStr)}:{g.noopOpaque}:{if g.noopEnd then 1 else 0}"
+  | .gat c => s!"gat:{hexOf c.key}:{c.exptime}:{c.opq}"
+  | .delete c => s!"delete:{hexOf c.key}:{c.opq}"
+  | .touch c => s!"touch:{hexOf c.key}:{c.exptime}:{c.opq}"
+  | .noop o => s!"noop:{o}"
+  | .quit o q => s!"quit:{o}:{if q then 1 else 0}"
+  | .version o => s!"version:{o}"
+  | .stat o => s!"stat:{o}"
+  | .unknown => "unknown"
+
+def perrStr : Option Wire.PErr → String
+  | none => "ok"
+  | some .eof => "fatal"
+  | some .badMagic => "fatal"
+  | some .badBodyLength => "fatal"
+  | some (.app e) => if Gen.loopContinueErrors.contains e.name then s!"client-error:{e.name}" else "fatal"
+
 def tierOf (s : String) : Tier := if s == "L2" then .l2 else .l1
 
 def itemStr (o : Option Item) : String :=
@@ -220,6 +244,15 @@ def step (st : St) (line : String) : St × List String :=
           | some l => Bytes.toHex l
           | none => "nil"])
   | ["limit", n] => (st, [s!"{Cluster.limitOf n.toNat!}"])
+  | ["parse", proto, bytes] =>
+    let inp := unhex bytes
+    let pr := Server.parse (if proto == "text" then .text else .bin) inp
+    let c := match pr.cmd with
+      | some c => cmdStr c
+      | none => "nil"
+    -- what remains is only meaningful when the connection survives
+    let restLen := if perrStr pr.err == "fatal" then 0 else pr.rest.length
+    (st, [s!"{perrStr pr.err} {c} rest={restLen} alloc={pr.alloc}"])
   | "dump" :: tier :: keys =>
     let t := tierOf tier
     let s := st.run.w.get t
